@@ -88,7 +88,15 @@ def parser_class():
         budget = 10 ** 9
         max_stack = 0
 
+        record = None       # list of event dicts when the I-spec binding records the stack snapshots
+
+        def _snap(self, k, parse_stack):
+            self.record.append({'k': k, 'st': [{'sym': f.symbol, 'start': f.start_token_pos, 'cur': f.cur_token_pos,
+                                                'ai': f.cur_prod_id, 'nv': len(f.values)} for f in parse_stack]})
+
         def _log_cur_prod(self, parse_stack, tokens):
+            if self.record is not None:
+                self._snap('cur', parse_stack)
             self.steps += 1
             if len(parse_stack) > self.max_stack:
                 self.max_stack = len(parse_stack)
@@ -96,6 +104,8 @@ def parser_class():
                 raise _Budget()
 
         def _log_match_result(self, parse_stack, tokens):
+            if self.record is not None:
+                self._snap('res', parse_stack)
             self.steps += 1
             if self.steps > self.budget:
                 raise _Budget()
@@ -331,6 +341,16 @@ def explore(ctx, want):
                     ctx.violation(case, what, tags)
             obs += res['obs']
         del results
+        if want in ('C01', 'C02'):
+            # I-spec binding on a seeded sample of the accepted grammars of this family
+            ok = [c for c in cases if not c['leftrec']]
+            nsamp = (150 if ctx.quick else 6000)
+            samp = ctx.rnd.sample(ok, min(nsamp, len(ok)))
+            ijobs = [(c, terms, min(k, 3), (i % 2 == 0), (i % 4 == 1)) for i, c in enumerate(samp)]
+            st = internals_check(ctx, ijobs, want)
+            agg = ctx.extra.setdefault('ispec_binding', {})
+            for kk, vv in st.items():
+                agg[kk] = max(agg.get(kk, 0), vv) if kk == 'max_machine_steps' else agg.get(kk, 0) + vv
         if want in ('C01',):
             # dedupe identical observations (both smart settings usually give the same tree)
             seen = set()
@@ -378,6 +398,90 @@ def explore(ctx, want):
         'alternative, input length); adjacent duplicate alternatives excluded (constructor asserts)',
         'non-termination is detected by a deterministic budget of %d machine steps per parse (counted through the parser\'s overridable debug hooks); a 120 s wall-clock alarm is only a backstop' % STEP_BUDGET,
     ]
+
+
+def names_tree(t):
+    v = t.value
+    if v is None:
+        return {'n': t.name, 'k': []}
+    if isinstance(v, list):
+        return {'n': t.name, 'k': [names_tree(x) for x in v]}
+    return {'n': t.name, 'v': t.name}
+
+
+def internals_job(job):
+    """real parser internals + recorded machine runs of one grammar, for LLMachine.tla"""
+    case, terms, k, smart, rev = job
+    from ak.llparser import ParsingError
+    try:
+        p = mk_parser(case['prods'], case['start'], smart, False, rev)
+    except Exception:
+        return None
+    pm = {sym: [list(r.production) for r in rules] for sym, rules in p.prods_map.items()}
+    table = []
+    for (sym, tok), rules in p.parse_table.items():
+        idx = [next(i for i, r in enumerate(p.prods_map[sym]) if r is x) for x in rules]
+        table.append({'sym': sym, 'tok': tok, 'alts': [i + 1 for i in idx]})
+    runs = []
+    for toks in all_inputs(terms, k):
+        text, _ = render(toks, False)
+        p.record = []
+        try:
+            t = p.parse_counted(text, STEP_BUDGET, do_cleanup=False)
+            runs.append({'toks': toks, 'res': 'tree', 'tree': names_tree(t), 'events': p.record})
+        except ParsingError:
+            runs.append({'toks': toks, 'res': 'ParsingError', 'tree': {'n': 'none', 'k': []}, 'events': p.record})
+        except Exception:
+            pass
+        finally:
+            p.record = None
+    return {'g': {'start': case['start'], 'terms': terms, 'prods': case['prods']}, 'pm': pm,
+            'suffix': sorted(p._suffix_symbols), 'table': table, 'runs': runs, 'smart': smart, 'rev': rev}
+
+
+def internals_check(ctx, jobs, what):
+    """I-spec binding: table (C02), factorization and machine runs (C01) of real parsers against LLMachine.tla.
+    Disagreements are DRIFT (the property verdicts come from the A-spec judges)."""
+    import re as _re
+    cases = [c for c in pmap(internals_job, jobs, chunk=50) if c is not None]
+    stats = {'parsers': len(cases), 'runs': sum(len(c['runs']) for c in cases), 'TABLE-DIFF': 0, 'FACTOR-DIFF': 0, 'run_diffs': 0,
+             'max_machine_steps': 0}
+    CH = 1500
+    for off in range(0, len(cases), CH):
+        part = cases[off:off + CH]
+        path = os.path.join(ctx.tmp, 'llmachine_%d.ndjson' % off)
+        with open(path, 'w') as f:
+            for c in part:
+                f.write(json.dumps({k: c[k] for k in ('g', 'pm', 'suffix', 'table', 'runs')}) + '\n')
+        r = ctx.tlc('llparser/LLMachine.tla', 'SPECIFICATION Spec\nCHECK_DEADLOCK FALSE\nINVARIANT StackBound\nINVARIANT FramesChained\n'
+                    'PROPERTY Terminates\n', env={'CASES': path}, workers=16, timeout=3600, heap='12g')
+        os.unlink(path)
+        nstatic = nrun = 0
+        # TLC evaluates actions more than once when it checks the liveness property: keep one line per verdict
+        for ln in sorted(set(r.raw_printed)):
+            m = _re.match(r'<<"(TABLE|FACTOR)-(OK|DIFF)", (\d+)>>', ln)
+            if m:
+                nstatic += 1
+                if m.group(2) == 'DIFF':
+                    stats[m.group(1) + '-DIFF'] += 1
+                    c = part[int(m.group(3)) - 1]
+                    if (m.group(1) == 'TABLE') == (what == 'C02') or what == 'C01':
+                        ctx.note_drift('%s of the real parser differs from the I-spec: start=%s prods=%s smart=%s' % (
+                            m.group(1).lower(), c['g']['start'], c['g']['prods'], c['smart']))
+                continue
+            m = _re.match(r'<<"(RUN-[A-Z-]+)", (\d+), (\d+), (\d+), (\d+)>>', ln)
+            if m:
+                nrun += 1
+                stats['max_machine_steps'] = max(stats['max_machine_steps'], int(m.group(5)))
+                if m.group(1) != 'RUN-OK':
+                    stats['run_diffs'] += 1
+                    c = part[int(m.group(2)) - 1]
+                    run = c['runs'][int(m.group(3)) - 1]
+                    ctx.note_drift('%s at event %s: start=%s prods=%s smart=%s tokens=%s' % (
+                        m.group(1), m.group(4), c['g']['start'], c['g']['prods'], c['smart'], run['toks']))
+        if nstatic != 2 * len(part) or nrun != sum(len(c['runs']) for c in part):
+            raise Machinery('LLMachine gave %d static and %d run verdicts for %d parsers' % (nstatic, nrun, len(part)))
+    return stats
 
 
 def eval_grammars(ctx, grams):
